@@ -347,8 +347,8 @@ func keysFor(lang string, idx int, thorough bool, bundleEvery int) []evalKey {
 	heavy := []int{fsMinify, fsLower, fsEsmAll, fsDialect}
 	ls := loadersFor(lang)
 	for li, l := range ls {
-		// quick: of four loaders (js, jsx, ts, tsx) one of each pair per case, rotating
-		if !thorough && len(ls) == 4 && li%2 != (h>>17+li/2)%2 {
+		// of four loaders (js, jsx, ts, tsx) one of each pair per case, rotating
+		if len(ls) == 4 && li%2 != (h>>17+li/2)%2 {
 			continue
 		}
 		light := fsPlain
@@ -356,8 +356,8 @@ func keysFor(lang string, idx int, thorough bool, bundleEvery int) []evalKey {
 			light = fsMapCJS
 		}
 		keys = append(keys, evalKey{Loader: l, FS: light, Salt: h % 97, Mode: "transform"})
-		// quick: one heavy flag set on one loader per case (rotating); thorough: one per loader
-		if thorough || len(ls) < 2 || li/(len(ls)/2) == (h>>13)%2 {
+		// one heavy flag set on one loader per case (rotating)
+		if len(ls) < 2 || li/(len(ls)/2) == (h>>13)%2 {
 			keys = append(keys, evalKey{Loader: l, FS: heavy[(h>>5+li)%len(heavy)], Salt: h % 89, Mode: "transform"})
 		}
 	}
